@@ -200,6 +200,45 @@ PLANS['C15'] = dict(
 )
 
 
+def notes_owners(w, home):
+    o = w.get('oracle', '')
+    if o in ('asan', 'tsan', 'ubsan'):
+        return sanitizer_owners(w, home)
+    if o in ('note-monotone', 'note-unjustified', 'note-after-notify', 'note-spontaneous', 'notify-returned-unnotified', 'expiry', 'wait-result'):
+        return {'C08'}
+    if o == 'note-not-propagated':
+        return {'C08', 'C09'} if 'adopted' in w.get('key', '') else {'C08'}
+    if o in ('deadlock', 'no-progress'):
+        s = {'C09'}
+        for t in w.get('threads', []):
+            if t.get('state') not in ('DONE', 'IDLE') and t.get('op') in ('nsync_note_wait', 'nsync_cv_wait_with_deadline'):
+                s.add('C08')
+        return s
+    if o in ('crash', 'panic'):
+        return {'C09', home}
+    return {home}
+
+
+NOTES = dict(owners=notes_owners)
+PLANS['C09'] = dict(
+    rule=RULE_B + RULE_A + 'non-trivial = a worker freed a note or a wait slept during the execution.',
+    groups=[
+        G('notes', 'c-asan', 'B', 10, 2500, **NOTES),
+        G('notes', 'c-plain', 'B', 4, 4000, **NOTES),
+        G('notes', 'c-asan', 'A', 2, 1500, thorough=30000, **NOTES),
+    ],
+    assumptions=['ASan with a 256 MB quarantine: a freed note is not reused within an execution'],
+)
+PLANS['C08'] = dict(
+    rule=RULE_B + RULE_A + 'non-trivial = a worker freed a note or a wait slept during the execution.',
+    groups=[
+        G('notes', 'c-plain', 'B', 8, 3000, params=dict(free=0), **NOTES),
+        G('notes', 'c-plain', 'B', 4, 3000, **NOTES),
+        G('notes', 'c-plain', 'A', 4, 1500, params=dict(free=0), thorough=30000, **NOTES),
+    ],
+)
+
+
 def expand(prop, tier, scale=1.0):
     spec = PLANS[prop]
     out = []
